@@ -67,6 +67,10 @@ claim("C07", "SSA structure + path facts (strip/inject composition), who-may-use
       "Structural necessary condition for all sessions/header sets/option combinations: same list to strip and inject, strip first with canonicalising Del for exactly the non-preserved names, unconditionally; upstream handler and 202 writer reachable only through headersChain.Then; injected values only from GetClaim/config/constants; nil session injects nothing; legacy conversion applies skip-auth-strip-headers to every entry. Level 'other'.",
       TRUST + " Not decided: legacy flag -> claim value tables, upstream header-name normalisation, GetClaim's per-claim values.", "DESIGN.md §5 C07")
 
+claim("C20", "must-hold lockset walk over SSA paths + atomic-pointer discipline + immutability-after-publication + swap gating",
+      "Structural necessary condition only (the discipline, not the schedules): every shared access to htpasswdMap.users holds rwm; published credential maps are immutable and replaced by locally built ones; Validate compares against the entry it read; UserMap.m only via sync/atomic with frozen stored maps and index-only readers; swaps only after error-free parsing. Level 'other'.",
+      TRUST + " Not decided: interleavings, fsnotify semantics, file-system atomicity.", "DESIGN.md §5 C20")
+
 for i in range(2, 21):
     pid = "C%02d" % i
     if pid not in T:
